@@ -34,6 +34,8 @@ type cfg struct {
 	Notifiers int    `json:"notifiers"`
 	Batches   int    `json:"batches"`
 	Payload   int    `json:"payload"`
+	MixKids   bool   `json:"mixKids"` // with kids: batch i touches only the child collection (i%3 = 0), only the top level (1), or both (2)
+	Filler    int    `json:"filler"` // extra keys per batch, put in shuffled order (a long deferred sort for readers to race with)
 	MaxPre    int    `json:"maxPre"`
 	Kids      bool   `json:"kids"`
 	Closer    bool   `json:"closer"`   // close the collection at a random moment (C16)
@@ -93,14 +95,38 @@ func readVec(ss moss.Snapshot, c cfg) ([]int, string) {
 			get(kid, key(w, "seq"))
 		}
 		same := true
-		for _, v := range vals {
-			if v != vals[0] {
-				same = false
-			}
-		}
 		n := 0
-		if vals[0] != "" {
-			n, _ = strconv.Atoi(vals[0])
+		if c.Kids && c.MixKids {
+			// the writer's last batch is the larger of the two markers; both markers must be what that
+			// prefix of its batches leaves (top level: last batch with i%3 != 0, child: last with i%3 != 1)
+			atoi := func(x string) int { v, _ := strconv.Atoi(x); return v }
+			top, kd := atoi(vals[0]), atoi(vals[len(vals)-1])
+			n = top
+			if kd > n {
+				n = kd
+			}
+			wantTop, wantKid := n, n
+			for wantTop > 0 && wantTop%3 == 0 {
+				wantTop--
+			}
+			for wantKid > 0 && wantKid%3 == 1 {
+				wantKid--
+			}
+			same = top == wantTop && kd == wantKid
+			for _, v := range vals[:len(vals)-1] {
+				if v != vals[0] {
+					same = false
+				}
+			}
+		} else {
+			for _, v := range vals {
+				if v != vals[0] {
+					same = false
+				}
+			}
+			if vals[0] != "" {
+				n, _ = strconv.Atoi(vals[0])
+			}
 		}
 		if !same {
 			n = -1
@@ -230,11 +256,19 @@ func main() {
 					return
 				}
 				v := []byte(strconv.Itoa(i))
-				b.Set(key(w, "seq"), v)
-				for j := 0; j < c.Payload; j++ {
-					b.Set(key(w, "p"+strconv.Itoa(j)), v)
+				mix := c.Kids && c.MixKids
+				if !mix || i%3 != 0 {
+					b.Set(key(w, "seq"), v)
+					for j := 0; j < c.Payload; j++ {
+						b.Set(key(w, "p"+strconv.Itoa(j)), v)
+					}
 				}
-				if c.Kids {
+				if c.Filler > 0 {
+					for _, j := range rand.New(rand.NewSource(c.Seed + int64(w*1000+i))).Perm(c.Filler) {
+						b.Set(key(w, "f"+strconv.Itoa(j)), v)
+					}
+				}
+				if c.Kids && (!mix || i%3 != 1) {
 					cb, _ := b.NewChildCollectionBatch("kid", moss.BatchOptions{})
 					cb.Set(key(w, "seq"), v)
 				}
